@@ -19,28 +19,63 @@
                         -> server.error = "Request destination unknown. ..."
      Refuse           open_connection: if connection.error: ServerConnectErrorHook, OpenConnectionCompleted(err)
      Connect          open_connection: asyncio.open_connection / open_udp_connection, then completion
+     Configure(r), UpdateBegin, UpdateDone   Proxyserver.configure({"mode"}) at runtime schedules Servers.update; the task
+                      swaps the instance list (removed servers stop), then the new servers start.  Requests of other
+                      client connections may arrive before, between and after these steps.
      Finish
    Guard: "parsed" = the code as it is; "text" = the code before the fix (named deviation, kept so that TLC shows the
    monitor rejects it); "denotes" = the weakest guard the statement asks for (TLC shows the monitor accepts it).   *)
 EXTENDS Mon_SelfConnect, TLC
-CONSTANTS Configs, Dests, Ports, Guard
-VARIABLES pc, socks, req, err, mon, obs
-vars == <<pc, socks, req, err, mon, obs>>
+CONSTANTS Configs, Dests, Ports, Guard,
+          Reconf,        \* runtime reconfigurations: name -> [from, to, kept] (kept = sockets of servers present in both)
+          ReHosts, RePorts,   \* destinations used around a reconfiguration (keeps the table small)
+          CacheSockets   \* FALSE = the code (server_connect reads the live server list).  TRUE: a design that caches the
+                         \* socket list and invalidates it in configure() (thorough requires the monitor to reject it)
+VARIABLES pc, socks, req, err, cfg, upd, target, opens, cache, mon, obs
+vars == <<pc, socks, req, err, cfg, upd, target, opens, cache, mon, obs>>
 
 NoReq == [host |-> "", dk |-> "", ip |-> 0, port |-> 0, tp |-> ""]
-Init == pc = "down" /\ socks = <<>> /\ req = NoReq /\ err = "none" /\ mon = MonInit /\ obs = <<>>
+Unset == <<"unset">>
+Init == /\ pc = "down" /\ socks = <<>> /\ req = NoReq /\ err = "none" /\ cfg = "" /\ upd = "none" /\ target = ""
+        /\ opens = 0 /\ cache = Unset /\ mon = MonInit /\ obs = <<>>
 Live == mon.bad = <<>>
 Emit(evs) == obs' = evs /\ mon' = FoldEvents(MonStep, mon, evs)
 
+\* socks = the sockets of the servers in Proxyserver.servers right now (what the guard can see) = the sockets that are
+\* listening (a removed server is stopped when the list is swapped; a new one has no address until it has started)
 Listen(c) ==
-  /\ Live /\ pc = "down" /\ pc' = "idle" /\ socks' = Configs[c] /\ UNCHANGED <<req, err>>
+  /\ Live /\ pc = "down" /\ pc' = "idle" /\ socks' = Configs[c] /\ cfg' = c
+  /\ UNCHANGED <<req, err, upd, target, opens, cache>>
   /\ Emit(<<[k |-> "listen", socks |-> Configs[c]]>>)
 
+Reduced(h, p, tp) == h \in ReHosts /\ p \in RePorts /\ tp = "tcp"
+\* one request against a static configuration (all destinations), or up to two around a reconfiguration (reduced set)
 Open(d, p, tp) ==
   /\ Live /\ pc = "idle" /\ pc' = "hook"
+  /\ \/ opens = 0 /\ upd = "none"
+     \/ opens < 2 /\ upd # "none" /\ Reduced(d.host, p, tp)
   /\ req' = [host |-> d.host, dk |-> d.dk, ip |-> d.ip, port |-> p, tp |-> tp]
-  /\ UNCHANGED <<socks, err>>
+  /\ UNCHANGED <<socks, err, cfg, upd, target, opens, cache>>
   /\ Emit(<<[k |-> "open", dk |-> d.dk, port |-> p, tp |-> tp, ip |-> d.ip, host |-> d.host]>>)
+
+\* options change at runtime: Proxyserver.configure({"mode"}) validates and SCHEDULES Servers.update as a task
+Configure(r) ==
+  /\ Live /\ pc = "idle" /\ upd = "none" /\ Reconf[r].from = cfg
+  /\ (opens = 0 \/ Reduced(req.host, req.port, req.tp))
+  /\ upd' = "scheduled" /\ target' = r /\ cache' = Unset
+  /\ UNCHANGED <<pc, socks, req, err, cfg, opens>>
+  /\ Emit(<<[k |-> "configure"]>>)
+\* the task runs: Servers.update swaps _instances (removed servers stop, new ones are created and start())
+UpdateBegin ==
+  /\ Live /\ pc = "idle" /\ upd = "scheduled" /\ upd' = "running" /\ socks' = Reconf[target].kept
+  /\ UNCHANGED <<pc, req, err, cfg, target, opens, cache>>
+  /\ Emit(<<[k |-> "listen", socks |-> Reconf[target].kept]>>)
+\* the new servers are up
+UpdateDone ==
+  /\ Live /\ pc = "idle" /\ upd = "running" /\ upd' = "done" /\ socks' = Configs[Reconf[target].to]
+  /\ cfg' = Reconf[target].to
+  /\ UNCHANGED <<pc, req, err, target, opens, cache>>
+  /\ Emit(<<[k |-> "listen", socks |-> Configs[Reconf[target].to]]>>)
 
 \* the guard before commit 9a745e7b9: text comparison; a mode serving both transports never matched
 TextGuard(s) == /\ req.port = s.port
@@ -54,25 +89,34 @@ ParsedGuard(s) == /\ req.port = s.port /\ s.tp = req.tp
                   /\ \/ LocalDest
                      \/ req.host = s.host
                      \/ req.ip # 0 /\ req.ip = s.ip
-SelfByCode == CASE Guard = "text" -> \E i \in 1..Len(socks) : TextGuard(socks[i])
-                [] Guard = "parsed" -> \E i \in 1..Len(socks) : ParsedGuard(socks[i])
-                [] OTHER -> \E i \in 1..Len(socks) : Denotes(req, socks[i])
+\* what the guard iterates over
+Seen == IF CacheSockets THEN (IF cache = Unset THEN socks ELSE cache) ELSE socks
+SelfByCode == CASE Guard = "text" -> \E i \in 1..Len(Seen) : TextGuard(Seen[i])
+                [] Guard = "parsed" -> \E i \in 1..Len(Seen) : ParsedGuard(Seen[i])
+                [] OTHER -> \E i \in 1..Len(Seen) : Denotes(req, Seen[i])
 
 ConnectHook ==
-  /\ Live /\ pc = "hook" /\ pc' = "decided" /\ UNCHANGED <<socks, req>>
+  /\ Live /\ pc = "hook" /\ pc' = "decided" /\ UNCHANGED <<socks, req, cfg, upd, target, opens>>
+  /\ cache' = IF CacheSockets THEN Seen ELSE cache
   /\ err' = IF SelfByCode THEN "destination_unknown" ELSE "none"
   /\ Emit(<<[k |-> "hook", err |-> err']>>)
 
-Refuse == /\ Live /\ pc = "decided" /\ err # "none" /\ pc' = "done" /\ UNCHANGED <<socks, req, err>>
+Refuse == /\ Live /\ pc = "decided" /\ err # "none" /\ pc' = "idle" /\ opens' = opens + 1
+          /\ UNCHANGED <<socks, req, err, cfg, upd, target, cache>>
           /\ Emit(<<[k |-> "completed", err |-> err]>>)
 \* the harness lets every socket open fail with an OSError: completion carries an error of class "other"
-Connect == /\ Live /\ pc = "decided" /\ err = "none" /\ pc' = "done" /\ UNCHANGED <<socks, req, err>>
+Connect == /\ Live /\ pc = "decided" /\ err = "none" /\ pc' = "idle" /\ opens' = opens + 1
+           /\ UNCHANGED <<socks, req, err, cfg, upd, target, cache>>
            /\ Emit(<<[k |-> "connect"], [k |-> "completed", err |-> "other"]>>)
-Finish == /\ Live /\ pc = "done" /\ pc' = "ended" /\ UNCHANGED <<socks, req, err>>
+Finish == /\ Live /\ pc = "idle" /\ opens >= 1 /\ upd \in {"none", "done"} /\ pc' = "ended"
+          /\ UNCHANGED <<socks, req, err, cfg, upd, target, opens, cache>>
           /\ Emit(<<[k |-> "end"]>>)
 
 Next == \/ \E c \in DOMAIN Configs : Listen(c)
         \/ \E d \in Dests, p \in Ports, tp \in {"tcp", "udp"} : Open(d, p, tp)
+        \/ \E r \in DOMAIN Reconf : Configure(r)
+        \/ UpdateBegin
+        \/ UpdateDone
         \/ ConnectHook
         \/ Refuse
         \/ Connect
